@@ -903,6 +903,8 @@ def rule_first_error(ctx, rid, r):
         exc_name = h[0].name if h else None
         v = a.value
         ok = isinstance(v, ast.Call) and len(v.args) == 2 and is_name(v.args[0], cb.pos_params[0]) and exc_name and is_name(v.args[1], exc_name)
+        # ... and it is the very node whose function was just called (`fn(x)` ... `coerce(x, exc)`)
+        ok = ok and bool(r.usercall.args) and norm(r.usercall.args[0]) == norm(v.args[0])
         ctx.ob(rid, f"{cb.short}/{r.firsterr}-value", bool(ok), loc(cb, a),
                "recorded error is built from this node and the exception just caught" if ok else
                "recorded error is not coerce(<this node>, <caught exception>)", norm(a))
